@@ -229,7 +229,9 @@ def main():
             report(f"`{sql}`: description changes while fetching: {d1} / {d2} / {d3}", {"statement": sql})
         elif keys is not None and list(dict.fromkeys(n for n, *_ in d1)) != keys:
             report(f"`{sql}`: description names {[n for n, *_ in d1]} differ from DictCursor keys {keys}", {"statement": sql, "description": d1, "dict_keys": keys})
-        elif [tuple(map(fsutil.pyrepr, r)) for r in all_a] != [tuple(map(fsutil.pyrepr, r.values())) for r in rows_b] and len(set(n for n, *_ in d1)) == len(d1):
+        elif (lambda x: x if "order by" in sql.lower() else sorted(x))([tuple(map(fsutil.pyrepr, r)) for r in all_a]) != \
+                (lambda x: x if "order by" in sql.lower() else sorted(x))([tuple(map(fsutil.pyrepr, r.values())) for r in rows_b]) and len(set(n for n, *_ in d1)) == len(d1):
+            # (without ORDER BY the two instances may return the rows in different orders: compared as multisets)
             report(f"`{sql}`: reading description changed what the fetch calls return: {all_a} vs {rows_b}", {"statement": sql})
         if sql.lstrip().lower().startswith("select") and "%s" not in sql and "sample" not in sql:
             try:
